@@ -39,7 +39,8 @@ for k in sorted(x for x in det if not x.startswith('_')):
     also = ('; also ' + ', '.join(v['also'])) if v.get('also') else ''
     note = v.get('note', '')
     rows.append('| %s | %s | %s%s | %s |' % (k, caught, obl, also, note))
-sec9 = open(os.path.join(T, 'design_sec9_head.md')).read().rstrip() + '\n\n| seeded change | caught by | obligations (quick tier) | note |\n|---|---|---|---|\n' + '\n'.join(rows) + '\n'
+open_ = [k for k in sorted(det) if not k.startswith('_') and not det[k].get('caught_by') and os.path.isdir(os.path.join(H, 'seeded', k))]
+sec9 = open(os.path.join(T, 'design_sec9_head.md')).read().rstrip().replace('@@R2_OPEN@@', ('still missed: ' + ', '.join(open_) + ' (see the rows).') if open_ else 'none is missed now.') + '\n\n| seeded change | caught by | obligations (quick tier) | note |\n|---|---|---|---|\n' + '\n'.join(rows) + '\n'
 base = base.rstrip() + '\n\n\n' + sec9
 open(os.path.join(H, 'DESIGN.md'), 'w').write(base)
 print('DESIGN.md written,', len(base), 'bytes')
